@@ -94,6 +94,8 @@ type contractDB struct {
 	AtomicInit map[string]bool // functions that run before any goroutine is started (may access atomic fields plainly)
 	Owned      map[string]bool // types whose values belong to one goroutine at a time
 	Moves      map[string]bool // functions that hand their receiver to a new goroutine
+	Shared     map[string]bool   // types whose values are reachable from every goroutine of a run
+	SoleWriter map[string]string // TYPE.field -> the one function (a goroutine of its own) that writes it after start-up
 	Discipline map[string]bool // properties that include the access-discipline obligations (atomic fields, moved values)
 	GlobalFrame map[string]bool // properties that include the module-wide frame obligations for package-level variables
 	RevealPost map[string]bool // layers in which the spec terms of callee postconditions are unfolded one level
@@ -101,10 +103,10 @@ type contractDB struct {
 	Files     []string
 }
 
-var clauseKw = regexp.MustCompile(`^(owned|discipline|atomicinit|moves|globalframe|defines|heapwf|reveal|scope|invariant|ghost|spec|macro|lemma|contract|external|requires|ensures|emits|callsite|decreases|loop|safety|props|inline|pure|modifies|noreturn|fuel|unreachable)\b`)
+var clauseKw = regexp.MustCompile(`^(owned|shared|solewriter|discipline|atomicinit|moves|globalframe|defines|heapwf|reveal|scope|invariant|ghost|spec|macro|lemma|contract|external|requires|ensures|emits|callsite|decreases|loop|safety|props|inline|pure|modifies|noreturn|fuel|unreachable)\b`)
 
 func newContractDB() *contractDB {
-	return &contractDB{Specs: map[string]*specDef{}, Contracts: map[string]*contract{}, Ghosts: map[string]string{}, Scopes: map[string][]string{}, Invariants: map[string][]*clause{}, RevealPost: map[string]bool{}, GlobalFrame: map[string]bool{}, AtomicInit: map[string]bool{}, Moves: map[string]bool{}, Owned: map[string]bool{}, Discipline: map[string]bool{}}
+	return &contractDB{Specs: map[string]*specDef{}, Contracts: map[string]*contract{}, Ghosts: map[string]string{}, Scopes: map[string][]string{}, Invariants: map[string][]*clause{}, RevealPost: map[string]bool{}, GlobalFrame: map[string]bool{}, AtomicInit: map[string]bool{}, Moves: map[string]bool{}, Owned: map[string]bool{}, Discipline: map[string]bool{}, Shared: map[string]bool{}, SoleWriter: map[string]string{}}
 }
 
 // loadContractFile parses one file. pkgPath is the Go package the file belongs to ("" for external files,
@@ -186,6 +188,32 @@ func (db *contractDB) loadContractFile(path, pkgPath string) error {
 				}
 				db.Owned[r] = true
 			}
+			cur = nil
+		case "shared":
+			for _, r := range strings.Fields(rest) {
+				if pkgPath != "" && !strings.Contains(r, "/") {
+					r = pkgPath + "." + r
+				}
+				db.Shared[r] = true
+			}
+			cur = nil
+		case "solewriter":
+			f := strings.Fields(rest)
+			if len(f) != 2 {
+				return fail("solewriter TYPE.field FUNC")
+			}
+			t, fn := f[0], f[1]
+			if pkgPath != "" && !strings.Contains(t, "/") {
+				t = pkgPath + "." + t
+			}
+			if pkgPath != "" && !strings.Contains(fn, "/") {
+				if strings.HasPrefix(fn, "(*") {
+					fn = "(*" + pkgPath + "." + fn[2:]
+				} else {
+					fn = pkgPath + "." + fn
+				}
+			}
+			db.SoleWriter[t] = fn
 			cur = nil
 		case "discipline":
 			for _, l := range strings.Fields(rest) {
